@@ -1,4 +1,5 @@
-from props.common import run_bounded, verify_keys
+from props.common import run_bounded, verify_keys, add_obs
+from pv import obs_classes as C
 
 KEYS = [
     'parso.python.tree._StringComparisonMixin.__eq__',
@@ -7,9 +8,14 @@ KEYS = [
     'parso.tree.NodeOrLeaf.get_previous_leaf', 'parso.tree.Leaf.get_first_leaf', 'parso.tree.Leaf.get_last_leaf',
     'parso.tree.BaseNode.get_first_leaf', 'parso.tree.BaseNode.get_last_leaf', 'parso.tree.NodeOrLeaf.search_ancestor',
     'parso.tree.BaseNode.get_leaf_for_position', 'parso.tree.BaseNode.get_leaf_for_position.binary_search',
+    'parso.python.tree.PythonMixin.get_name_of_position',
 ]
 
 
 def run(report):
     verify_keys(report, KEYS)
+    add_obs(report, C.python_tree_class_obligations)      # PYTREE, assumed by get_name_of_position
+    report.assume("TREE-WF: one well-formed tree with in-order leaf numbering (ghost theory of contracts/tree_nav.py), ghost "
+                  "positions spos/epos, leaf_at (a leaf is the leaf at its own number); PYTREE: interior nodes carry PythonMixin "
+                  "(T obligation cls:python-tree-classes)")
     run_bounded(report, 'parse')
